@@ -281,6 +281,19 @@ def monitor_inputs(rng, n_per_stream, tier):
         jobs.append(('mutant', {'Main': texts.token_mutant(rng, text), 'tests.StdLib': stdlib}))
         name, text = rng.pick(samples)
         jobs.append(('mutant', {'Main': texts.tree_mutant(rng, text), 'tests.StdLib': stdlib}))
+        # syntactically valid, ill-typed: a pattern that cannot be checked and later uses of its names
+        jobs.append(('ill-typed', {'Main': texts.bad_pattern_program(rng)}))
+        if i % 4 == 0:
+            # a single type fault in a generated well-typed program, laid out with multi-byte characters and line breaks everywhere
+            from gen import faults
+            fr = rng.fork()
+            fp = faults.fault_base(fr, i)
+            ms = faults.all_faults(fp['sources']['Main'], 'generated')
+            if ms:
+                m = fr.pick(ms)
+                laid = texts.hostile_layout(fr, m['text'], 'unicode')
+                if laid:
+                    jobs.append(('ill-typed', dict(fp['sources'], Main=laid)))
         if i % 10 == 0:      # several modules at once
             a, b = rng.pick(samples), rng.pick(samples)
             jobs.append(('multi-module', {'A': texts.token_mutant(rng, a[1]), 'B': texts.tree_mutant(rng, b[1]),
@@ -306,7 +319,7 @@ def run_monitor(jobs, timeout=1500):
     """jobs: [(stream, {mod: text})] -> [result or None]"""
     # mutants of the samples are checked together with std/ (and tests/StdLib.sam, see monitor_inputs) so that
     # type checking and compilation go beyond "cannot resolve module"
-    inp = '\n'.join(json.dumps({'id': i, 'sources': src, 'with_std': stream in ('mutant', 'multi-module') or stream.startswith('corpus:')})
+    inp = '\n'.join(json.dumps({'id': i, 'sources': src, 'with_std': stream in ('mutant', 'multi-module', 'ill-typed') or stream.startswith('corpus:')})
                     for i, (stream, src) in enumerate(jobs)) + '\n'
     rc, out = vh(['lex-run', 'monitor', str(NCPU)], input=inp, timeout=timeout)
     res = {}
